@@ -602,6 +602,9 @@ func GenLivelySpec(t *rapid.T, o SpecOpts) *ASpec {
 			// (one result only: the order of several results is not
 			// fixed, so keeping them would make the state arbitrary)
 			an.Action.Ops = append(append([]Op{}, an.Action.Ops...), Op{Op: "set", K: src, V: srcVal}, Op{Op: "matchStore", K: "found", Keys: []string{src}, V: pat})
+			if rapid.Bool().Draw(t, "ext.rand") {
+				an.Action.Ops = append(an.Action.Ops, Op{Op: "randLen", K: "n"})
+			}
 			result := []interface{}{map[string]interface{}{"?w": val["a"]}}
 			a.Hints = append(a.Hints, result)
 			to := rapid.SampledFrom(all).Draw(t, "ext.to")
